@@ -27,6 +27,33 @@ Proof.
   exists d, vs, v, c, af, bf, bids'. repeat split; auto.
 Qed.
 
+(* the converse: a request meeting the gate is carried out (with [migrate_inv]: an "if and only if") *)
+Lemma ge_0_16_2_ge_0_15_0 v : req_ge_0_16_2 v = true -> req_ge_0_15_0 v = true.
+Proof.
+  unfold req_ge_0_16_2, req_ge_0_15_0, ver_ge, ver_cmp. intros H. apply andb_prop in H as [Hp H]. rewrite Hp. cbn [andb].
+  destruct (N.compare_spec (v_major v) 0) as [E1|E1|E1]; try discriminate H; try reflexivity.
+  destruct (N.compare_spec (v_minor v) 16) as [E2|E2|E2]; try discriminate H.
+  - rewrite E2. reflexivity.
+  - destruct (N.compare_spec (v_minor v) 15) as [E3|E3|E3]; try reflexivity; exfalso; lia.
+Qed.
+
+Lemma migrate_if e st m d vs v c af bf bids' :
+  opt_pair_ok (g_afr m) (g_afa m) = true -> opt_pair_ok (g_bfr m) (g_bfa m) = true ->
+  st_ver st = Some (d, vs) -> version_parse vs = Some v -> req_ge_0_16_2 v = true ->
+  st_cfg st = Some c -> opt_addrs_ok e (g_approvers m) = true ->
+  fee_pair e (cf_ask_fee c) (g_afa m) (g_afr m) = Ok af ->
+  fee_pair e (cf_bid_fee c) (g_bfa m) (g_bfr m) = Ok bf ->
+  convert_slots (req_window v) (st_bids st) = Ok bids' ->
+  migrate e st m = Ok (mkstate (Some (migrated_cfg c m af bf)) (Some (e_crate_name e, e_pkg_version e)) (st_asks st) bids',
+                       mkresp [] []).
+Proof.
+  intros Hp1 Hp2 Hver Hparse Hge Hc Had Haf Hbf Hconv.
+  unfold migrate, validate_mig. rewrite Hp1, Hp2. cbn [andb guard bind].
+  unfold stored_version. rewrite Hver, Hparse. cbn [of_opt bind]. rewrite Hge. cbn [guard bind].
+  unfold get_cfg. rewrite Hc. cbn [of_opt bind]. rewrite Had. cbn [guard bind]. rewrite Haf, Hbf. cbn [bind].
+  rewrite (ge_0_16_2_ge_0_15_0 v Hge). cbn [guard bind]. rewrite Hconv. cbn [bind]. reflexivity.
+Qed.
+
 (* ---- the conversion of one bid ---- *)
 Fixpoint list_sum (l : list N) : N := match l with [] => 0 | x :: r => x + list_sum r end.
 Lemma sum_checked_ok l : forall acc s, sum_checked l acc = Ok s -> s = acc + list_sum l.
